@@ -191,6 +191,10 @@ def run(check: Check, with_flags: bool = True):
         if isinstance(x, ast.DictComp) and isinstance(x.value, ast.Subscript) and txt(x.value.slice) == IND and txt(x.generators[0].iter).endswith(
             'raw_examples.items()'):
           ok_y = True
+        # the module's own gather helper: slice_examples(<dataset>.raw_examples, indices) is {k: v[indices] for k, v in ...}
+        if isinstance(x, ast.Call) and wmean.repo_fn(ff, x) == f'{MOD}:slice_examples' and len(x.args) == 2 and txt(x.args[0]).endswith(
+            'raw_examples') and txt(x.args[1]) == IND:
+          ok_y = True
   check.ob('R-SIZE', fi, 'indices = zeros((batch_size,)); while filled < size; yield {k: v[indices]}',
            ok_ind and des and wh and ok_y and filled0,
            f'every batch has exactly batch_size rows, all features gathered with the same indices (alloc={ok_ind}, target size='
